@@ -6,6 +6,7 @@ CONSTANTS
   MaxAtt = 3
   MaxDisc = 1
   MaxSubs = 1
+  Sequential = FALSE
   Timeouts = TRUE
   Limits <- NoLimits
   Affs <- NoAffs
